@@ -7,6 +7,7 @@ package checks
 import (
 	"fmt"
 	"os"
+	"strings"
 	"testing"
 
 	ledger "github.com/formancehq/ledger/internal"
@@ -206,12 +207,14 @@ func identicalKeyGroups(plan *enginesim.Plan) {
 	}
 }
 
+var c07LongKey = "long-" + strings.Repeat("0123456789abcdef", 20)
+
 func TestC07(t *testing.T) {
 	c := evid.New("C07")
 	c.Rule = "histories in which 2-4 identical requests of every write kind share an idempotency key (pool of 2 keys): sequential, racing (choice lists over run.ik.taken, store lookup, execution, run.wait) and retried after a crash placed anywhere; side class: same key on different requests. Oracle: <=1 entry per key; every success returns that entry's outcome. Non-trivial = >=2 same-key requests overlapping or straddling a restart; distinct by operations + gate trace."
 	c.Assumptions = []string{engineAssumption}
 	cfg := enginesim.DefaultConfig()
-	cfg.IKPool = []string{"", "k1", "k1", "k2"}
+	cfg.IKPool = []string{"", "k1", "k1", "k2", "k2", c07LongKey} // one key longer than any column or buffer is likely to be
 	cfg.Crashes = 1
 	cfg.SameIKIdentical = true
 	cfg.RefPool = []string{"", "", "r1"}
@@ -262,7 +265,7 @@ func TestC07(t *testing.T) {
 
 func TestC10(t *testing.T) {
 	c := evid.New("C10")
-	c.Rule = "histories: funded accounts, committed transactions of generated shapes (multi-posting, posting mode, zero amounts, world on either side), later spends that do or do not move the funds on, then 1-4 reverts per round (forced/unforced, same or different targets, racing), optional crash. Oracle: revert postings = original reversed and swapped, <=1 revert per target, unforced revert never overdraws (fold with grant 0), balances restored when nothing else touched them, one success per target. Non-trivial = a revert entry of a >=2-posting target, or racing reverts of one target, or a refused revert; distinct by operations + gate trace."
+	c.Rule = "one case in twelve goes over HTTP (single revert routes of v1 / v2 and bulk elements; force given as true, false or not at all; the mode applied must be the one each request states); otherwise: histories: funded accounts, committed transactions of generated shapes (multi-posting, posting mode, zero amounts, world on either side), later spends that do or do not move the funds on, then 1-4 reverts per round (forced/unforced, same or different targets, racing), optional crash. Oracle: revert postings = original reversed and swapped, <=1 revert per target, unforced revert never overdraws (fold with grant 0), balances restored when nothing else touched them, one success per target. Non-trivial = a revert entry of a >=2-posting target, or racing reverts of one target, or a refused revert; distinct by operations + gate trace."
 	c.Assumptions = []string{engineAssumption}
 	cfg := enginesim.DefaultConfig()
 	cfg.Kinds = []enginesim.OpKind{enginesim.OpCreate, enginesim.OpRevert, enginesim.OpRevert, enginesim.OpRevert}
@@ -274,6 +277,10 @@ func TestC10(t *testing.T) {
 	cfg.UniqueIKPct = 35 // requests carrying a key that was never used before
 	cfg.RefPool = nil
 	runProp(t, c, func(rt *rapid.T) {
+		if rapid.IntRange(0, 11).Draw(rt, "httpFamily") == 0 {
+			c10HTTP(rt, c)
+			return
+		}
 		plan := enginesim.GenPlan(rt, cfg)
 		r := runEngine(t, rt, c, plan)
 		if r == nil {
